@@ -87,12 +87,27 @@ def to_strings(ents):
 def run_impl(ents):
   from matched_markets.methodology import utils
   try:
-    days = utils.expand_time_windows(utils.find_days_to_exclude(to_strings(ents)))
+    windows = utils.find_days_to_exclude(to_strings(ents))
+    days = utils.expand_time_windows(windows)
   except ValueError:
     return 'ValueError'
   except Exception as e:
     return 'other:%s: %s' % (type(e).__name__, str(e)[:80])
-  return sorted((d.year, d.month, d.day) for d in days), len(days)
+  out = sorted((d.year, d.month, d.day) for d in days), len(days)
+  # the caller keeps its windows: expanding them again, all together or one at a time, is held to the same statement
+  try:
+    again = utils.expand_time_windows(windows)
+    if sorted(again) != sorted(days) or len(again) != len(days):
+      return 'other:second expansion of the same windows differs from the first'
+    for e, w in zip(ents, windows):
+      one = utils.expand_time_windows([w])
+      want = expected([e])
+      if sorted((d.year, d.month, d.day) for d in one) != want or len(one) != len(want):
+        return 'other:after an expansion of the whole list, the window of %r alone expands to %d days instead of %d' % (
+            to_strings([e])[0], len(one), len(want))
+  except Exception as e:
+    return 'other:re-expansion raised %s: %s' % (type(e).__name__, str(e)[:80])
+  return out
 
 
 def expected(ents):
@@ -161,7 +176,7 @@ def run(tier):
     want = expected(ents)
     ck.count(repr(ents), nontrivial=len(ents) >= 2)
     if isinstance(res, str) and res.startswith('other'):
-      ck.fail('non-ValueError', 'entries %r raised %s' % (to_strings(ents), res), {'entries': ents})
+      ck.fail('non-ValueError', 'entries %r: %s' % (to_strings(ents), res[6:]), {'entries': ents})
       continue
     if res == 'ValueError':
       dist['ValueError'] += 1
